@@ -31,7 +31,7 @@ class Result:
 # --------------------------------------------------------------------------- stream checks
 STREAM = {
     # prop: (profile, extra harness args quick, extra harness args thorough)
-    "C01": ("c01", ["--cases", 900, "--cost", 1500000], ["--cases", 9000, "--cost", 30000000, "--bigshare", 40]),
+    "C01": ("c01", ["--cases", 900, "--cost", 2500000], ["--cases", 9000, "--cost", 30000000, "--bigshare", 40]),
     "C02": ("c02", ["--cases", 700, "--cost", 1000000], ["--cases", 7000, "--cost", 20000000, "--bigshare", 30]),
     "C03": ("c03", ["--cases", 500, "--cost", 500000], ["--cases", 4000, "--cost", 8000000, "--bigshare", 10]),
     "C04": ("c04", ["--sweep", "--cases", 400, "--cost", 500000], ["--sweep", "--cases", 3000, "--cost", 10000000, "--bigshare", 20]),
@@ -112,6 +112,15 @@ def check_stream(prop, tier, seed, only=None, outdir=None, props=None, accept=No
         subframe_kinds_and_channel_assignments_seen=summary["kinds"], outcomes=summary["outcomes"],
         samples=summary["samples"],
         checker_cmd="tlc -workers 1 -config TraceStream.cfg TraceStream.tla (one JVM per NDJSON shard, env TRACE)")
+    if prop == "C03":
+        # the hash is fed by a separate thread in the multi-thread encoder: controlled schedules in which that
+        # thread is starved (the 16-slot process queue fills up, 17..21 blocks), validated against ParEncoder.tla
+        rnd = par_random(tier, seed, False, "C03rnd", res, "C03", 120 if tier == "thorough" else 16, starve_every=2)
+        res.coverage["hasher_starving_schedules"] = dict(runs=rnd["runs"], steps=rnd["steps"], accepted_by_TracePar=rnd["accepted"],
+                                                         diverged=rnd["diverged"])
+        res.coverage["states"] += rnd["states"]
+        res.coverage["transitions"] += rnd["transitions"]
+        res.coverage["traces_validated_against_impl"] += rnd["accepted"]
     res.assumptions = [
         "FlacFormat.tla is a faithful reading of RFC 9639 (cross-checked against claxon during development)",
         "TLC and the CommunityModules Java overrides evaluate the specification correctly",
@@ -222,9 +231,10 @@ def par_replay(tier, scenarios, tag, res, prop):
     return tot, sample
 
 
-def par_random(tier, seed, faults, tag, res, prop, runs):
+def par_random(tier, seed, faults, tag, res, prop, runs, starve_every=10):
     out = os.path.join(vlib.WORK, "par", f"{tag}.ndjson")
-    args = ["sched-random", "--runs", runs, "--seed", seed, "--maxw", 4, "--maxn", 7 if tier == "thorough" else 5, "--out", out]
+    args = ["sched-random", "--runs", runs, "--seed", seed, "--maxw", 4, "--maxn", 7 if tier == "thorough" else 5,
+            "--starve-every", starve_every, "--out", out]
     if not faults:
         args.append("--nofaults")
     summ = vlib.run_fv(args, timeout=3000)
